@@ -59,11 +59,16 @@ func (netErr) Temporary() bool { return false }
 
 var _ net.Error = netErr{}
 
-var unavailable = map[string]bool{"timeout_text": true, "syncing": true, "head_not_verified": true, "api502": true, "api503": true, "api504": true, "neterr": true, "econnrefused": true}
-var errClasses = []string{"timeout_text", "syncing", "head_not_verified", "api502", "api503", "api504", "neterr", "econnrefused", "api400", "api404", "api500", "generic"}
+var unavailable = map[string]bool{"ctx_deadline_typed": true, "timeout_text": true, "syncing": true, "head_not_verified": true, "api502": true, "api503": true, "api504": true, "neterr": true, "econnrefused": true}
+var errClasses = []string{"ctx_deadline_typed", "ctx_canceled_typed", "timeout_text", "syncing", "head_not_verified", "api502", "api503", "api504", "neterr", "econnrefused", "api400", "api404", "api500", "generic"}
 
 func makeErr(class string) error {
 	switch class {
+	case "ctx_deadline_typed":
+		// the node's own request timed out (its HTTP client's deadline), the caller's context is alive
+		return fmt.Errorf("failed to call GET endpoint: %w", context.DeadlineExceeded)
+	case "ctx_canceled_typed":
+		return fmt.Errorf("failed to call GET endpoint: %w", context.Canceled)
 	case "timeout_text":
 		return errors.New("http request timeout")
 	case "syncing":
@@ -148,6 +153,7 @@ func TestC19Multi(t *testing.T) {
 func runCase(rt *rapid.T) {
 	stop := make(chan struct{})
 	var allNodes []*node
+	var unused []*node // nodes outside the scope of a scoped client
 	mk := func(prefix string, count int) ([]eth2wrap.Client, []*node) {
 		var cs []eth2wrap.Client
 		var ns []*node
@@ -175,6 +181,35 @@ func runCase(rt *rapid.T) {
 	cl, err := eth2wrap.Instrument(pc, fc)
 	if err != nil {
 		rt.Fatalf("HARNESS-ERROR: %v", err)
+	}
+	// a quarter of the cases go through a client scoped to one node's address (as the fetcher and the
+	// monitoring API use it): scoped to a primary it keeps the configured fallbacks, scoped to a fallback it
+	// has none, an unknown or empty address gives the unscoped client
+	scope := "unscoped"
+	switch k := rapid.IntRange(0, 11).Draw(rt, "scope"); {
+	case k == 0:
+		i := rapid.IntRange(0, len(primaries)-1).Draw(rt, "scopePrimary")
+		cl = cl.ClientForAddress(primaries[i].name)
+		for _, n := range primaries {
+			if n != primaries[i] {
+				unused = append(unused, n)
+			}
+		}
+		primaries = []*node{primaries[i]}
+		scope = "primary"
+	case k == 1 && len(fallbacks) > 0:
+		i := rapid.IntRange(0, len(fallbacks)-1).Draw(rt, "scopeFallback")
+		cl = cl.ClientForAddress(fallbacks[i].name)
+		for _, n := range append(append([]*node{}, primaries...), fallbacks...) {
+			if n != fallbacks[i] {
+				unused = append(unused, n)
+			}
+		}
+		primaries, fallbacks = []*node{fallbacks[i]}, nil
+		scope = "fallback"
+	case k == 2:
+		cl = cl.ClientForAddress(rapid.SampledFrom([]string{"", "nobody", "primary"}).Draw(rt, "scopeUnknown"))
+		scope = "unknown_address"
 	}
 	call := rapid.SampledFrom([]string{"NodeVersion", "AttestationData", "SubmitAttestations"}).Draw(rt, "call")
 	cancelAt := time.Duration(-1)
@@ -242,7 +277,7 @@ func runCase(rt *rapid.T) {
 		}
 		return s
 	}
-	desc := fmt.Sprintf("%s primaries=%v fallbacks=%v cancelAt=%v", call, script(primaries), script(fallbacks), cancelAt)
+	desc := fmt.Sprintf("%s scope=%s primaries=%v fallbacks=%v cancelAt=%v", call, scope, script(primaries), script(fallbacks), cancelAt)
 	earliestOK := func(ns []*node, from time.Duration) (time.Duration, bool) {
 		best, ok := time.Duration(0), false
 		for _, n := range ns {
@@ -284,6 +319,9 @@ func runCase(rt *rapid.T) {
 		}
 	}
 	fallbackCalled := calls(fallbacks) > 0
+	if calls(unused) > 0 {
+		rt.Fatalf("OUT OF SCOPE: a client scoped to one %s node's address also called other nodes (%s)", scope, desc)
+	}
 	switch {
 	case haveOK && !cancelledBefore(okAt):
 		if res == nil {
@@ -352,7 +390,7 @@ func runCase(rt *rapid.T) {
 		}
 	}
 	nontrivial := len(classes) >= 2 || hang || fallbackCalled
-	vstat.Case(desc, nontrivial, "call:"+call, cls("primary_success", haveOK), cls("hang", hang), cls("fallback_consulted", fallbackCalled), cls("cancelled", cancelAt >= 0))
+	vstat.Case(desc, nontrivial, "call:"+call, "scope:"+scope, cls("primary_success", haveOK), cls("hang", hang), cls("fallback_consulted", fallbackCalled), cls("cancelled", cancelAt >= 0))
 	if nontrivial && fallbackCalled && vstat.WantSample("fallback") {
 		vstat.Sample("fallback", map[string]any{"call": call, "primaries": script(primaries), "fallbacks": script(fallbacks), "cancel_at": cancelAt.String(), "returned_at": elapsedOf(res)})
 	} else if nontrivial && hang && vstat.WantSample("hang") {
